@@ -754,6 +754,26 @@ func hbExtra(t *testing.T, r *Rec) {
 				// the same timeline is what C19 promises of the session's timers: a refreshed timer fires one
 				// full period after the refresh and only once, a cancelled one never
 				r.Violate("C19", fmt.Sprintf("C19/session-timers/%s/%s", sc.name, tr), fmt.Sprintf("I=%d T=%d: the session's ping/deadline timers fired as %v, want %v", I, T, got, sc.exp), sc.lines)
+				// the revision chosen at the handshake fixes the heartbeat mode for the life of the session (C06):
+				// a revision-3 session is never pinged by the server
+				for _, g := range got {
+					if sc.proto == 3 && strings.HasSuffix(g, ":ping") {
+						r.Violate("C06", fmt.Sprintf("C06/heartbeat-mode/revision-3-session-pinged-by-server/%s/%s", sc.name, tr), fmt.Sprintf("a revision-3 session was sent a ping by the server (%v): its revision no longer determines its heartbeat mode", got), sc.lines)
+						break
+					}
+				}
+				// a peer that has gone silent must be given up at its deadline: a session (its reader goroutine, its
+				// table entry) that outlives a dead peer for good is held by client input alone (C09)
+				wantClose, gotClose := false, false
+				for _, e := range sc.exp {
+					wantClose = wantClose || strings.Contains(e, ":close:")
+				}
+				for _, g := range got {
+					gotClose = gotClose || strings.Contains(g, ":close:")
+				}
+				if wantClose && !gotClose {
+					r.Violate("C09", fmt.Sprintf("C09/silent-peer-never-given-up/%s/%s", sc.name, tr), fmt.Sprintf("I=%d T=%d: the peer went silent and the session was never closed (%v, want %v)", I, T, got, sc.exp), sc.lines)
+				}
 			}
 		}
 	}
@@ -1350,7 +1370,7 @@ func famSesResp(t *testing.T, r *Rec) {
 					o := parseObs(outs[round.idx])
 					if len(o.resps) != 1 {
 						// a batch was waiting and the transport was idle: this poll is answered at once, whatever its Accept-Encoding says
-						for _, pr := range []string{"C11", "C16"} {
+						for _, pr := range []string{"C11", "C16", "C01"} {
 							r.Violate(pr, pr+"/poll-with-data-waiting-not-answered", fmt.Sprintf("a poll with Accept-Encoding %q found a batch waiting and got %d responses", ae, len(o.resps)), lines[:round.idx+1])
 						}
 						continue
@@ -1391,7 +1411,7 @@ func famSesResp(t *testing.T, r *Rec) {
 	// payloads that do not shrink under the coding, and revision-3 text payloads that do: whatever the server decides about
 	// the coding, the poll is answered, the body decodes to the batch and a text payload is served as text
 	for _, proto := range []int{4, 3} {
-		for _, ae := range []string{"gzip", "deflate", "br", "zstd"} {
+		for _, ae := range []string{"gzip", "deflate", "br", "zstd", "GZIP", "Deflate", "BR, identity", "zStd;q=1"} {
 			for _, kind := range []string{"incompressible", "compressible"} {
 				msg := []byte("m0123456789abcdefghi")
 				if kind == "compressible" {
